@@ -1,5 +1,6 @@
 //! vh — the Rust side of the binding between ClapSpec (TLA+) and clap.
 //! Every subcommand reads/writes NDJSON or a JSON report; see /verif/DESIGN.md §3.
+mod complete;
 mod def;
 mod help;
 mod hist;
@@ -49,6 +50,7 @@ fn main() {
         "hist-record" => hist::hist_record(&arg(&args, "--defs", ""), seed, n, arg(&args, "--maxops", "40").parse().unwrap(), &out),
         "help-replay" => help::help_replay(&arg(&args, "--defs", ""), &input, &out, &div, &arg(&args, "--widths", "0,1,2,5,8,10,13,20,30,50,100,200")),
         "help-show" => help::help_show(&arg(&args, "--defs", ""), &arg(&args, "--label", ""), &arg(&args, "--path", ""), &arg(&args, "--mode", "short"), arg(&args, "--w", "0").parse().unwrap()),
+        "complete-replay" => complete::complete_replay(&arg(&args, "--defs", ""), &input, &out, &div),
         "c04-record" => values::c04_record(seed, n, &out),
         "c20-replay" => wrap::c20_replay(&input, &out, &div),
         "c20-record" => wrap::c20_record(seed, n, arg(&args, "--maxlen", "120").parse().unwrap(), &out),
